@@ -356,4 +356,48 @@ Proof.
     exists (i_name d, i_body d). split; [exact Hr|]. simpl. rewrite (enums_of_unique d Hd). exact Hen.
   - intros e He Hc. apply enums_closed_lemma. split; [exact He|]. tauto.
 Qed.
+
+Lemma needs_lookup_unique d : In d (p_inputs p) -> needs_lookup (p_inputs p) (i_name d) = i_needs d.
+Proof.
+  revert names_unique. induction (p_inputs p) as [|h l IH]; simpl; intros Hn Hd; [destruct Hd|].
+  destruct Hd as [->|Hd].
+  - now rewrite String.eqb_refl.
+  - inversion Hn; subst. destruct (String.eqb (i_name h) (i_name d)) eqn:E.
+    + apply String.eqb_eq in E. exfalso. apply H1. rewrite E. apply in_map. exact Hd.
+    + apply IH; assumption.
+Qed.
+
+(* a class body refers only to the fixed preamble, to the enums of its own fields and to the imports of
+   its own custom-scalar fields *)
+Definition needs_wf : Prop := forall d, In d (p_inputs p) -> forall x, In x (i_needs d) ->
+  In x (p_preamble p) \/ (exists e, In e (i_enums d) /\ x = enum_item e) \/ In x (i_scalar_items d).
+
+(* every import a RETAINED class needs is in the emitted module, whatever set was retained (pruned or not,
+   autoflake working or giving up) *)
+Lemma imports_cover_retained_lemma : needs_wf -> forall (retained : list (string * A)) d,
+  In d (p_inputs p) -> In (i_name d, i_body d) retained ->
+  forall x, In x (i_needs d) -> In x (module_imports p retained).
+Proof.
+  intros Hwf retained d Hd Hr x Hx.
+  assert (Hneed : In x (needs_of p retained)).
+  { unfold needs_of. apply in_flat_map. exists (i_name d, i_body d). split; [exact Hr|]. simpl.
+    rewrite (needs_lookup_unique d Hd). exact Hx. }
+  assert (Hcand : In x (candidates p retained)).
+  { unfold candidates. rewrite !in_app_iff. destruct (Hwf d Hd x Hx) as [H|[[e [He ->]]|H]].
+    - left. exact H.
+    - right. left. apply in_map. unfold input_used_enums. apply in_flat_map.
+      exists (i_name d, i_body d). split; [exact Hr|]. simpl. rewrite (enums_of_unique d Hd). exact He.
+    - right. right. apply in_flat_map. exists d. split; assumption. }
+  unfold module_imports. destruct (autoflake_gives_up p retained); [exact Hcand|].
+  apply filter_In. split; [exact Hcand | apply mem_In; exact Hneed].
+Qed.
+
+(* and, unless autoflake gives up, nothing else is imported *)
+Lemma imports_exact_lemma (retained : list (string * A)) x :
+  autoflake_gives_up p retained = false -> In x (module_imports p retained) ->
+  exists r, In r retained /\ In x (needs_lookup (p_inputs p) (fst r)).
+Proof.
+  intros Hb Hx. unfold module_imports in Hx. rewrite Hb in Hx. apply filter_In in Hx.
+  destruct Hx as [_ Hx]. apply mem_In in Hx. unfold needs_of in Hx. apply in_flat_map in Hx. exact Hx.
+Qed.
 End Pkg.
